@@ -78,8 +78,8 @@ theorem clientBranch_eval (P : Parsers ρ σ) (hm : MinLen P) (f : TcpFlow) (seg
       | some r => ({ f with clientData := f.clientData ++ [seg], clientParsed := true }, some r)
       | none => ({ f with clientData := f.clientData ++ [seg] }, none) := by
   unfold clientBranch
-  have h1 : ¬ (fullData (some f.clientIsn) (f.clientData ++ [seg])).length > maxBufferedHeadBytes := by
-    have := fullData_length_le (some f.clientIsn) (f.clientData ++ [seg]); omega
+  have h1 : ¬ bufferedLen (f.clientData ++ [seg]) > maxBufferedHeadBytes := by
+    rw [bufferedLen_eq_totalLen]; omega
   simp only [hp, Bool.false_eq_true, if_false, h1]
   cases hr : P.request (fullData (some f.clientIsn) (f.clientData ++ [seg])) with
   | some r => simp [hasComplete_of_request P hm _ r hr]
@@ -92,8 +92,8 @@ theorem serverBranch_eval (P : Parsers ρ σ) (hm : MinLen P) (f : TcpFlow) (seg
       | some r => ({ f with serverData := f.serverData ++ [seg], serverParsed := true }, some r)
       | none => ({ f with serverData := f.serverData ++ [seg] }, none) := by
   unfold serverBranch
-  have h1 : ¬ (fullData f.serverIsn (f.serverData ++ [seg])).length > maxBufferedHeadBytes := by
-    have := fullData_length_le f.serverIsn (f.serverData ++ [seg]); omega
+  have h1 : ¬ bufferedLen (f.serverData ++ [seg]) > maxBufferedHeadBytes := by
+    rw [bufferedLen_eq_totalLen]; omega
   simp only [hp, Bool.false_eq_true, if_false, h1]
   cases hr : P.response (fullData f.serverIsn (f.serverData ++ [seg])) with
   | some r => simp [hasComplete_of_response P hm _ r hr]
